@@ -391,6 +391,54 @@ def clt_case(ctx, rs, scope, pred, tag):
             return
 
 
+def layout_case(ctx, k):
+    """the caller's evidence array in another MEMORY LAYOUT than a fresh C-contiguous one — Fortran order (`data.T`, what a
+    DataFrame hands over), a strided view of a larger array, a column block: the completion is the same, with `inplace=False` in
+    the returned array and with `inplace=True` in the caller's array itself"""
+    rs = np.random.RandomState(np_seed(ctx.sub_rng('layout', k)))
+    nv = int(rs.randint(2, 5))
+    root = S.rand_spn(rs, list(range(nv)), depth=int(rs.randint(1, 4)), kinds=('bern', 'cat', 'gauss'), share=0.3, clt=(k % 3 == 0))
+    if not getattr(root, 'children', None):
+        return
+    assign_ids(root)
+    order = S.export_net(root)[1]
+    dom = S.domain_of(order)
+    n = 9
+    X = np.zeros((n, nv), dtype=np.float64)
+    for v in range(nv):
+        X[:, v] = rs.randint(max(dom[v], 1), size=n) if dom[v] > 0 else rs.randn(n)
+    X[rs.rand(n, nv) < 0.5] = np.nan
+    ref = np.asarray(mpe(root, np.ascontiguousarray(X.copy())))
+    ctx.count('memory-layout-cases')
+    ctx.case('layout', nontrivial_key=('layout', k), sample=dict(nodes=len(order)))
+    rep = dict(kind='c06-layout', k=k, seed=ctx.seed)
+
+    def layouts():
+        yield 'Fortran order', np.asfortranarray(X.copy())
+        big = np.full((2 * n, nv + 3), 7.5)
+        big[::2, :nv] = X
+        yield 'strided view big[::2, :d]', big[::2, :nv]
+        wide = np.full((n, nv + 2), 7.5)
+        wide[:, :nv] = X
+        yield 'column block wide[:, :d]', wide[:, :nv]
+        yield 'transposed storage', np.ascontiguousarray(X.T.copy()).T
+    for name, A in layouts():
+        for inplace in (False, True):
+            B = A if inplace else A.copy(order='K')
+            try:
+                Y = mpe(root, B, inplace=inplace)
+            except Exception as ex:
+                ctx.violation(f'c06-layout-raises:{type(ex).__name__}', f'mpe(inplace={inplace}) raised {type(ex).__name__}: {str(ex)[:160]} on evidence in {name}', replay=rep)
+                return
+            got = np.asarray(B if inplace else Y)
+            same = np.array_equal(np.nan_to_num(got, nan=-9.25), np.nan_to_num(ref, nan=-9.25))
+            if not same or np.any(np.isnan(got)):
+                r = int(np.argmax(np.any(np.nan_to_num(got, nan=-9.25) != np.nan_to_num(ref, nan=-9.25), axis=1)))
+                ctx.violation('c06-memory-layout', f'mpe(inplace={inplace}) on evidence stored in {name}: row {X[r].tolist()} is completed as {got[r].tolist()}, '
+                              f'the same evidence in a C-contiguous array as {ref[r].tolist()}', replay=rep)
+                return
+
+
 def zero_weight_case(ctx, k, report=None):
     """a mixture with a component of weight EXACTLY zero and evidence that this dead component explains far better than every live
     one (a Gaussian observation ~15 sigma from the live means, or ~110 observed near-deterministic binary variables): the dead
@@ -435,6 +483,10 @@ def run(ctx):
             return
     for k in range(50 if quick else 1000):
         circuit_case(ctx, k, False)
+        if ctx.n_new(with_input_only=True) >= 3:
+            return
+    for k in range(6 if quick else 60):
+        layout_case(ctx, k)
         if ctx.n_new(with_input_only=True) >= 3:
             return
     for k in range(4 if quick else 40):
@@ -483,6 +535,14 @@ def replay(rep):
         from harness.common import replay_demo
         return replay_demo(rep['replay'])
     r = rep['replay']
+    if r['kind'] == 'c06-layout':
+        from harness.common import Ctx
+        c2 = Ctx('C06', 'quick', r['seed'])
+        c2.driver_ok = False
+        layout_case(c2, r['k'])
+        for v in c2.violations:
+            print('  ', v['what'][:300])
+        return not c2.violations
     if r['kind'] == 'c06-zero-weight':
         from harness.common import Ctx
         c2 = Ctx('C06', 'quick', r['seed'])
